@@ -287,11 +287,6 @@ Proof.
 Qed.
 
 (* ---------------------------------------------------------------- the whole fill on the machine *)
-Lemma core_at_set_chips : forall m cs x y p,
-  core_at (set_chips m cs) (x, y, p) =
-  match cassoc (x, y) cs with Some ch => nth_error (ch_cores ch) (Z.to_nat p) | None => None end.
-Proof. reflexivity. Qed.
-
 Theorem replay_fill : forall m data ps ffs sels rd ds ffe,
   ps = [ffs] ++ sels ++ [rd] ++ ds ++ [ffe] ->
   Forall bcast ps ->
@@ -304,7 +299,7 @@ Theorem replay_fill : forall m data ps ffs sels rd ds ffe,
   let m' := fst (replay m ps) in
   m_sched m' = tl (m_sched m) /\ m_buffer m' = m_buffer m /\ m_base m' = m_base m /\ m_vcpu m' = m_vcpu m
   /\ map fst (m_chips m') = map fst (m_chips m)
-  /\ forall x y p, 0 <= p ->
+  /\ forall x y p,
        core_at m' (x, y, p) =
        option_map (fun old => if negb (chip_mem (x, y) (hd [] (m_sched m))) && sels_select sels (x, y, p)
                               then fill_core ffe data else old)
@@ -338,7 +333,8 @@ Proof.
   rewrite Hm'. cbn [set_chips start_fill m_sched m_buffer m_base m_vcpu m_chips].
   repeat split; try reflexivity.
   - apply broadcast_keys.
-  - intros x y p Hp. rewrite core_at_set_chips. rewrite cassoc_broadcast. unfold core_at.
+  - intros x y p. unfold core_at. cbn [set_chips m_chips]. destruct (p <? 0) eqn:Ep; [reflexivity|].
+    apply Z.ltb_ge in Ep. rename Ep into Hp. rewrite cassoc_broadcast.
     destruct (cassoc (x, y) (m_chips m)) as [ch|]; [|reflexivity]. cbn [option_map].
     destruct (chip_mem (x, y) (hd [] (m_sched m))) eqn:Edeaf; cbn [negb andb].
     + destruct (nth_error (ch_cores ch) (Z.to_nat p)); reflexivity.
